@@ -3,7 +3,7 @@ import re
 
 from hypothesis import strategies as st
 
-from vlib import parse, pipeline, scenario as S
+from vlib import build, parse, pipeline, scenario as S
 from vlib.refmodel import gtfcheck
 from vlib.shard import Stage, case_hash
 from props.c03 import common_opts
@@ -132,7 +132,7 @@ def evaluate(case, ctx):
         ctx.cls("annotated" if annotated else "annotation-free", "spliced_novel>0" if n_spliced_novel else
                 "spliced_novel=0")
         has_noise = any(r["n"].startswith("rn") for r in sc["reads"])
-        if n_spliced_novel and (has_noise or sc.get("split_locus")):
+        if n_spliced_novel and (has_noise or sc.get("split_locus") or sc.get("corner")):
             ctx.mark_nontrivial(case_hash(case))
             ctx.sample(pipeline.summarize(sc, {"spliced_novel_reported": n_spliced_novel}))
     finally:
@@ -161,7 +161,51 @@ def split_scenarios(draw):
     return sc
 
 
+@st.composite
+def corner_scenarios(draw):
+    """Parametrised corner structures of the intron graph (from the leads in hunt/C04): a minor isoform with a
+    micro-exon that begins a few bases before the acceptor of the major isoform, so that collapsing the bulge makes
+    two consecutive introns of the minor path overlap."""
+    src = S.DrawSrc(draw)
+    annotated = src.bool(0.5)
+    strand = "+"
+    b = src.int(300, 900)
+    e1 = [b, b + src.int(90, 150)]
+    e2 = [e1[1] + src.int(250, 400), 0]
+    e2[1] = e2[0] + src.int(150, 250)
+    acc = e2[1] + src.int(900, 1200)            # last base of the intron of the minor isoform
+    d = src.int(9, 14)
+    major = [e1, e2, [acc + 1 + d, acc + d + src.int(400, 600)]]
+    m = src.int(6, 9)
+    far = acc + m + src.int(900, 1100)
+    minor = [e1, e2, [acc + 1, acc + m], [far, far + src.int(250, 350)]]
+    reads = []
+    k = 0
+    for _ in range(src.int(20, 35)):
+        k += 1
+        reads.append(S.exact_read("a%d" % k, "chr1", strand, major, polya=src.int(22, 30)))
+    for _ in range(src.int(3, 6)):
+        k += 1
+        reads.append(S.exact_read("b%d" % k, "chr1", strand, minor, polya=src.int(22, 30)))
+    overrides = build.splice_overrides("chr1", major, strand) + build.splice_overrides("chr1", minor, strand)
+    genes = []
+    if annotated:
+        genes = [{"id": "G1", "chr": "chr1", "strand": strand, "canon": "canon",
+                  "transcripts": [{"id": "T1", "exons": [list(x) for x in major]}]}]
+    sc = {"chroms": [["chr1", minor[-1][1] + src.int(900, 2000), src.int(1, 10 ** 6)]], "genes": genes,
+          "hidden_genes": [{"id": "H", "chr": "chr1", "strand": strand, "canon": "canon",
+                            "transcripts": [{"id": "HM", "exons": minor}]}],
+          "overrides": overrides, "reads": reads, "nfiles": 1,
+          "gtf": {"gene_records": True, "transcript_records": True},
+          "opts": ["--data_type", src.choice(["nanopore", "pacbio_ccs"]), "--no_gzip", "--threads", "1"],
+          "split_locus": False, "corner": "micro_exon_bulge"}
+    if src.bool(0.3):
+        sc["opts"] += ["--model_construction_strategy", src.choice(["sensitive_ont", "all", "default_ont"])]
+    return sc
+
+
 def stages(tier):
     q = tier == "quick"
     return [Stage("novel", "hyp", evaluate, n=256 if q else 4000, strategy=scenarios),
-            Stage("split", "hyp", evaluate, n=48 if q else 600, strategy=split_scenarios)]
+            Stage("split", "hyp", evaluate, n=48 if q else 600, strategy=split_scenarios),
+            Stage("corners", "hyp", evaluate, n=48 if q else 600, strategy=corner_scenarios)]
